@@ -2,8 +2,8 @@
     shuffled order, served in both modes through the real cursor codec; the hypotheses of every
     main theorem of Properties/C09.v are met by it, and the conclusions are computed. *)
 From Coq Require Import List ZArith NArith Bool Lia Sorting.Sorted Sorting.Permutation.
-From ApiFu Require Import Base.Sexp Relay.CursorCodec Relay.CursorCodecProofs
-     Relay.RelayModel Relay.RelaySpec Relay.RelayProofs Relay.RelayInstance.
+From ApiFu Require Import Base.Sexp Relay.CursorCodec Relay.CursorCodecProofs Relay.CursorCodecTotal
+     Relay.RelayModel Relay.RelayModelF Relay.RelaySpec Relay.RelayProofs Relay.RelayInstance Relay.RelaySerFailProofs.
 Import ListNotations.
 Open Scope Z_scope.
 
@@ -48,7 +48,7 @@ Proof.
 Qed.
 
 Example cursors_ok : forall x, In x conn -> kind_of (ecur x) = KInt /\ cursor_ok (ecur x).
-Proof. intros x Hx. simpl in Hx. repeat destruct Hx as [Hx|Hx]; try contradiction; subst x; (split; [reflexivity | unfold cursor_ok, ecur, e, fst; lia]). Qed.
+Proof. intros x Hx. simpl in Hx. repeat destruct Hx as [Hx|Hx]; try contradiction; subst x; (split; [reflexivity | apply cursor_ok_int; unfold ecur, e, fst; lia]). Qed.
 
 Notation srv a := (serve cursor edge cursor_ltb ecur cursor_encode (cursor_decode KInt) a).
 Definition cur_str (c : Z) : bytes := cursor_encode (CInt c).
@@ -138,4 +138,100 @@ Example codec :
   /\ cursor_decode KInt [66; 10; 81]%N = Some (CInt 5)       (* a line break inside *)
   /\ cursor_decode KInt [66]%N = None
   /\ cursor_decode KInt (cursor_encode (CStr [107]%N)) = None.
+Proof. vm_compute. repeat split; reflexivity. Qed.
+
+(** ** Stage B *)
+
+(** the struct cursor: SerializeCursor(TimeBasedCursor{5, "ab"}) = "gqROYW5v0wAAAAAAAAAFoklkomFi"; strings the
+    server never emitted: an unknown key whose value (nested arrays) is skipped, the array form with a
+    surplus element, nil; errors: a map32 claiming 2^32-1 pairs, an array32 claiming 2^32-1 elements,
+    the unused code 0xc1 in a skipped position *)
+Definition b64s (l : list N) : bytes := b64_encode l.
+Example time_codec :
+  cursor_encode_f (CTime 5 [97; 98]%N)
+  = Some [103; 113; 82; 79; 89; 87; 53; 118; 48; 119; 65; 65; 65; 65; 65; 65; 65; 65; 65; 70; 111; 107; 108; 107; 111; 109; 70; 105]%N
+  /\ cursor_decode KTime (cursor_encode (CTime (-7) [97; 98]%N)) = Some (CTime (-7) [97; 98]%N)
+  /\ cursor_decode KTime (b64s [129; 161; 120; 145; 145; 192]%N) = Some (CTime 0 [])
+  /\ cursor_decode KTime (b64s [147; 5; 161; 105; 145; 192]%N) = Some (CTime 5 [105]%N)
+  /\ cursor_decode KTime (b64s [192]%N) = Some (CTime 0 [])
+  /\ cursor_decode KTime (b64s [223; 255; 255; 255; 255; 161; 120; 1]%N) = None
+  /\ cursor_decode KTime (b64s [221; 255; 255; 255; 255; 5; 161; 105; 1; 2]%N) = None
+  /\ cursor_decode KTime (b64s [129; 161; 120; 193]%N) = None.
+Proof. vm_compute. repeat split; reflexivity. Qed.
+
+(** the fuel is real: the same string with too little fuel runs out, with fuel = its length (or
+    more) it does not — as [C09_cursor_decode_terminates] / [_fuel_irrelevant] say in general *)
+Example fuel_is_real :
+  let s := b64s [129; 161; 120; 145; 145; 192]%N in
+  cursor_decode_f 0 KTime s = DOutOfFuel /\ cursor_decode_f 2 KTime s = DOutOfFuel
+  /\ cursor_decode_f (length s) KTime s = DOk (CTime 0 []) /\ cursor_decode_f 1000 KTime s = DOk (CTime 0 []).
+Proof. vm_compute. repeat split; reflexivity. Qed.
+
+(** SerializeCursor failing: an application whose cursors cannot be serialised when they are >= 40 *)
+Definition enc_small (c : cursor) : option bytes :=
+  match c with CInt z => if z <? 40 then Some (cursor_encode c) else None | _ => None end.
+Notation srvf sel a := (serve_f cursor edge cursor_ltb ecur enc_small (cursor_decode KInt) sel a).
+Example serialize_fails :
+  (* page 10,20: fine *)
+  srvf true app_all_edges {| a_first := Some 2; a_last := None; a_after := None; a_before := None |}
+  = FData [(cur_str 10, e 10 101); (cur_str 20, e 20 102)]
+          (Ok {| sp_prev := false; sp_next := true; sp_start := cur_str 10; sp_end := cur_str 20 |}) (Ok 5)
+  (* page 10..40: the end cursor cannot be serialised: an error, whatever is selected *)
+  /\ srvf false app_all_edges {| a_first := Some 4; a_last := None; a_after := None; a_before := None |} = FError ESerialize
+  /\ srvf false app_window {| a_first := None; a_last := Some 1; a_after := None; a_before := None |} = FError ESerialize
+  (* zero edges: nothing is serialised *)
+  /\ srvf true app_window {| a_first := Some 0; a_last := None; a_after := None; a_before := None |}
+     = FData [] (Ok {| sp_prev := false; sp_next := true; sp_start := []; sp_end := [] |}) (Ok 5).
+Proof. vm_compute. repeat split; reflexivity. Qed.
+
+(** Direction *)
+Notation srvd d a := (serve_dir cursor edge cursor_ltb ecur cursor_encode_f (cursor_decode KInt) d true a).
+Example directions :
+  let w := {| w_first := WVal 2; w_last := WAbsent; w_after := WVal (cur_str 20); w_before := WAbsent |} in
+  srvd ForwardOnly app_window w = srvd Bidirectional app_window w
+  /\ (exists p pi t, srvd ForwardOnly app_window w = FData p pi t /\ map snd p = [e 30 103; e 40 104])
+  /\ srvd BackwardOnly app_window w = FError EValidation
+  /\ srvd ForwardOnly app_window {| w_first := WVal 2; w_last := WNull; w_after := WAbsent; w_before := WAbsent |} = FError EValidation
+  /\ srvd ForwardOnly app_window {| w_first := WNull; w_last := WAbsent; w_after := WAbsent; w_before := WAbsent |} = FError EValidation
+  /\ srvd Bidirectional app_window {| w_first := WNull; w_last := WAbsent; w_after := WAbsent; w_before := WAbsent |} = FError ENoCount.
+Proof. vm_compute. repeat split; try reflexivity. do 3 eexists. split; reflexivity. Qed.
+
+(** the hypotheses of [C09_connection_response_f] are met by this instance with the real codec *)
+Example response_f_by_theorem : forall ar af bf sel,
+  args_rejected (a_first ar) (a_last ar) = false ->
+  decode_arg cursor (cursor_decode KInt) (a_after ar) EInvalidAfter = Ok af ->
+  decode_arg cursor (cursor_decode KInt) (a_before ar) EInvalidBefore = Ok bf ->
+  serve_f cursor edge cursor_ltb ecur cursor_encode_f (cursor_decode KInt) sel app_window ar
+  = lift cursor edge ecur cursor_encode sel (serve cursor edge cursor_ltb ecur cursor_encode (cursor_decode KInt) app_window ar).
+Proof.
+  intros ar af bf sel H1 H2 H3.
+  refine (proj2 (serve_f_ok cursor edge cursor_ltb ecur cursor_ltb_irrefl cursor_ltb_trans cursor_ltb_total
+                   cursor_encode cursor_encode_f (cursor_decode KInt) app_window edges conn ar af bf sel window_ok_ex _ H1 H2 H3)).
+  intros x Hx. destruct (cursors_ok x Hx) as [_ [_ Hlen]]. unfold enc_ok, cursor_encode_f. cbv zeta. rewrite Hlen. reflexivity.
+Qed.
+
+(** struct cursors (two edges per timestamp) through one-directional connections of the model the
+    check runs: forward-only walks forwards, backward-only backwards, and the wrong direction is
+    rejected before the resolver runs (the client sees an error) *)
+Definition te (n : Z) (i : N) (node : Z) : edge := (CTime n [i], node).
+Definition tedges : list edge := [te 2000 99 3; te 1000 98 2; te 1000 97 1; te 2000 100 4].
+Definition tconn : list edge := [te 1000 97 1; te 1000 98 2; te 2000 99 3; te 2000 100 4].
+Definition tapp : app cursor edge :=
+  {| app_has_all := true; app_all := Ok (Sync tedges); app_edges := fun _ _ _ => Err EApp; app_total := None |}.
+Notation tsrv d := (as_server_dir cursor edge cursor_ltb ecur cursor_encode_f (cursor_decode KTime) d tapp).
+Example time_walks :
+  walk_forward edge (tsrv ForwardOnly) 1 5 None = Done tconn
+  /\ walk_forward edge (tsrv ForwardOnly) 3 5 None = Done tconn
+  /\ walk_backward edge (tsrv BackwardOnly) 3 5 None = Done tconn
+  /\ walk_backward edge (tsrv Bidirectional) 1 5 None = Done tconn
+  /\ walk_backward edge (tsrv ForwardOnly) 3 5 None = ServerError.
+Proof. vm_compute. repeat split; reflexivity. Qed.
+
+(** TimeBasedConnection's collection of getter answers: direct, promise, direct — nothing is lost;
+    a failing promise is the error *)
+Example time_collect_ex :
+  time_resolve_edges Z [Ok (Sync [1; 2]); Ok (Promise (Ok [3])); Ok (Sync [4])] = Ok (Promise (Ok [1; 2; 4; 3]))
+  /\ time_resolve_edges Z [Ok (Sync [1]); Ok (Sync [])] = Ok (Sync [1])
+  /\ time_resolve_edges Z [Ok (Sync [1]); Ok (Promise (Err EApp)); Ok (Promise (Ok [2]))] = Ok (Promise (Err EApp))
+  /\ time_resolve_edges Z [Ok (Promise (Ok [2])); Err EApp] = Err EApp.
 Proof. vm_compute. repeat split; reflexivity. Qed.
